@@ -872,12 +872,12 @@ def run(ctx):
     check_cam_batch(ctx, cam_coder, boundary_scenarios(), "boundary")
     check_vam_batch(ctx, vam_coder, vam_boundary_scenarios(), gated, "boundary")
     # 3 generated trajectories
-    n_cam, dur = ctx.scale(70, 900), ctx.scale(20_000, 60_000)
+    n_cam, dur = ctx.scale(50, 600), ctx.scale(20_000, 60_000)
     cams = [gen_cam_scenario(ctx.rng, dur, wrap=(i % 4 == 0)) for i in range(n_cam)]
     for st in STYLES:     # every style at least once
         cams.append(gen_cam_scenario(ctx.rng, dur, style=st))
     check_cam_batch(ctx, cam_coder, cams, "gen")
-    n_vam = ctx.scale(70, 900)
+    n_vam = ctx.scale(50, 600)
     vams = [gen_vam_scenario(ctx.rng, dur, wrap=(i % 4 == 0)) for i in range(n_vam)]
     vams += [gen_vam_scenario(ctx.rng, dur, style=st, rate=50) for st in STYLES]
     vams += [gen_vam_scenario(ctx.rng, dur, tgen=tg) for tg in (100, 250, 1000, 5000)]
@@ -897,7 +897,7 @@ def search(ctx):
     ok = ctx.model_ok
     ctx.model_ok = False
     try:
-        n, dur = ctx.scale(210, 2700), ctx.scale(20_000, 60_000)
+        n, dur = ctx.scale(150, 900), ctx.scale(20_000, 60_000)
         check_cam_batch(ctx, cam_coder, [gen_cam_scenario(ctx.rng, dur, wrap=(i % 3 == 0)) for i in range(n)], "search")
         check_vam_batch(ctx, vam_coder, [gen_vam_scenario(ctx.rng, dur, wrap=(i % 3 == 0)) for i in range(n)], gated, "search")
     finally:
